@@ -1,6 +1,53 @@
 package main
 
-import "strconv"
+import (
+	"go/ast"
+	"os"
+	"path/filepath"
+	"strconv"
+	"strings"
+)
+
+// c02expr renders the conditions this file pins (selectors, index expressions, !x, a && b, a != b, literals)
+func c02expr(e ast.Expr) string {
+	switch v := e.(type) {
+	case *ast.Ident:
+		return v.Name
+	case *ast.SelectorExpr:
+		return c02expr(v.X) + "." + v.Sel.Name
+	case *ast.IndexExpr:
+		return c02expr(v.X) + "[" + c02expr(v.Index) + "]"
+	case *ast.UnaryExpr:
+		return v.Op.String() + c02expr(v.X)
+	case *ast.BinaryExpr:
+		return c02expr(v.X) + " " + v.Op.String() + " " + c02expr(v.Y)
+	case *ast.ParenExpr:
+		return "(" + c02expr(v.X) + ")"
+	case *ast.BasicLit:
+		return v.Value
+	case *ast.CallExpr:
+		a := make([]string, len(v.Args))
+		for i, x := range v.Args {
+			a[i] = c02expr(x)
+		}
+		return c02expr(v.Fun) + "(" + strings.Join(a, ", ") + ")"
+	}
+	return "?"
+}
+
+// c02preserveGuards: the `if` conditions of a method that read Cookie.Preserve, source order
+func c02preserveGuards(rel, recv, name string) []string {
+	var res []string
+	ast.Inspect(methodDecl(rel, recv, name).Body, func(n ast.Node) bool {
+		if s, ok := n.(*ast.IfStmt); ok {
+			if c := c02expr(s.Cond); strings.Contains(c, "Cookie.Preserve") {
+				res = append(res, c)
+			}
+		}
+		return true
+	})
+	return res
+}
 
 func factsC02() {
 	// cmdResponseOK("set server"): strings.HasPrefix(response, <lit>)
@@ -17,4 +64,39 @@ func factsC02() {
 	args1 := callArgs("pkg/haproxy/types/backend.go", "AddEmptyEndpoint", "b.AddEndpoint", 1)
 	addStr("c02EmptyAddr", one(args0, "empty slot address"), "backend.go AddEmptyEndpoint: address of an empty slot")
 	addInt("c02EmptyPort", one(args1, "empty slot port"), "backend.go AddEmptyEndpoint: port of an empty slot")
+
+	// cookie column
+	addBool("c02EmptyCookieIsName", has(methodAssigns("pkg/haproxy/types/backend.go", "Backend", "AddEmptyEndpoint"), "endpoint.CookieValue=endpoint.Name"),
+		"backend.go AddEmptyEndpoint: the placeholder cookie of an empty slot is its generated name (Model mkEmpty)")
+	// Backend.CookieAffinity(): the returned expression
+	var aff []string
+	ast.Inspect(methodDecl("pkg/haproxy/types/backend.go", "Backend", "CookieAffinity").Body, func(n ast.Node) bool {
+		if r, ok := n.(*ast.ReturnStmt); ok && len(r.Results) == 1 {
+			aff = append(aff, c02expr(r.Results[0]))
+		}
+		return true
+	})
+	addStr("c02CookieAffinity", strconv.Quote(one(aff, "CookieAffinity return")), "backend.go CookieAffinity(): when server lines may carry a cookie")
+	// haproxy.tmpl: the condition under which ` cookie <CookieValue>` is printed on a server line (the same with and
+	// without preserve)
+	tmpl, err := os.ReadFile(filepath.Join(repo, "rootfs/etc/templates/haproxy/haproxy.tmpl"))
+	if err != nil {
+		fail("haproxy.tmpl: %v", err)
+	}
+	var conds []string
+	for _, l := range strings.Split(string(tmpl), "\n") {
+		if i := strings.Index(l, "}} cookie {{ $ep.CookieValue }}"); i >= 0 {
+			j := strings.LastIndex(l[:i], "{{- if ")
+			if j < 0 {
+				fail("haproxy.tmpl: server line cookie without condition: %s", l)
+			}
+			conds = append(conds, strings.TrimSpace(l[j+len("{{- if "):i]))
+		}
+	}
+	addStr("c02TmplServerCookieCond", strconv.Quote(one(conds, "server line cookie condition")), "haproxy.tmpl: condition of ` cookie {{ $ep.CookieValue }}` on a server line (Model renderedCookie)")
+	// the two preserve guards of the dynamic update (Model checkEndpointPair / addedStep)
+	addStrList("c02PreserveGuardSlots", c02preserveGuards("pkg/haproxy/dynupdate.go", "dynUpdater", "checkBackendPair"),
+		"dynupdate.go checkBackendPair: conditions reading Cookie.Preserve (loop that fills the empty slots)")
+	addStrList("c02PreserveGuardPair", c02preserveGuards("pkg/haproxy/dynupdate.go", "dynUpdater", "checkEndpointPair"),
+		"dynupdate.go checkEndpointPair: conditions reading Cookie.Preserve")
 }
